@@ -502,6 +502,9 @@ func unpack_iterable(vm *Vm, v py.Object, argcnt int, argcntafter int, sp int) e
 		w, err := py.Next(it)
 		if err != nil {
 			/* Iterator done, via error or exhaustion. */
+			if !py.IsException(py.StopIteration, err) {
+				return err
+			}
 			return py.ExceptionNewf(py.ValueError, "need more than %d value(s) to unpack", i)
 		}
 		sp--
@@ -510,8 +513,11 @@ func unpack_iterable(vm *Vm, v py.Object, argcnt int, argcntafter int, sp int) e
 
 	if argcntafter == -1 {
 		/* We better have exhausted the iterator now. */
-		_, finished := py.Next(it)
-		if finished != nil {
+		_, err := py.Next(it)
+		if err != nil {
+			if !py.IsException(py.StopIteration, err) {
+				return err
+			}
 			return nil
 		}
 		return py.ExceptionNewf(py.ValueError, "too many values to unpack (expected %d)", argcnt)
@@ -1194,8 +1200,11 @@ func do_JUMP_ABSOLUTE(vm *Vm, target int32) error {
 // iterator indicates it is exhausted TOS is popped, and the bytecode
 // counter is incremented by delta.
 func do_FOR_ITER(vm *Vm, delta int32) error {
-	r, finished := py.Next(vm.TOP())
-	if finished != nil {
+	r, err := py.Next(vm.TOP())
+	if err != nil {
+		if !py.IsException(py.StopIteration, err) {
+			return err
+		}
 		vm.DROP()
 		vm.frame.Lasti += delta
 	} else {
